@@ -174,7 +174,7 @@ class MapfileTransformer(Transformer):
             # allow for multipart features in a nested list
             existing_points = composite_dict[key_name]
 
-            if calculate_depth(existing_points) == 2:
+            if calculate_depth(existing_points) <= 2:
                 composite_dict[key_name] = [existing_points]
 
             if key_name not in composite_dict:
@@ -773,5 +773,6 @@ def calculate_depth(iterable):
     A helper function to get the max length + 1 in a list of lists
     """
     return (
-        isinstance(iterable, (tuple, list)) and max(map(calculate_depth, iterable)) + 1
+        isinstance(iterable, (tuple, list))
+        and max(map(calculate_depth, iterable), default=0) + 1
     )
